@@ -2,7 +2,10 @@
 (tracklib/algo/cinematics.py computeAbsCurv / estimate_speed, algo/analytics.py ds / speed,
 core/operators.py Integrator).
 
-Two kinds of cases:
+Three kinds of cases:
+* coordinate-class cases (`cls` present; generators and the independent geodesy in c17coords.py): one track whose positions
+  are ENUCoords / GeoCoords / ECEFCoords, an op word over {a, s, c, d, o}; model `Model/CinematicsCoords.lean` (driver
+  `C17.coords`);
 * single-track cases (`kind` enum / lattice-* / float* / pre-* / single): one fresh track, optional features present
   beforehand, an op word over {a = computeAbsCurv, s = estimate_speed}; model `Model/Cinematics.lean` (driver `C17.run`);
 * world histories (`hist` present; generators and the oracle's bookkeeping in c17world.py): observations shared between
@@ -12,6 +15,7 @@ import math, calendar, itertools, time as _time
 from fractions import Fraction
 from engine import Prop, fbits, bitsf, ratstr, parse_rat, tok_list, untok, close, err_kind
 from props import c17world as W
+from props import c17coords as C
 
 NAN = float("nan")
 
@@ -50,19 +54,36 @@ class P(Prop):
         ("TracklibVerif.Props.C17", "TV.C17.abscurv_shared", "computeAbsCurv(track k) as one step of a history on shared observations: returns [absc 0..] of the current positions whatever foreign slots the objects carry; track k reads it under abs_curv"),
         ("TracklibVerif.Props.C17", "TV.C17.speed_shared", "estimate_speed(track k) on shared observations: speed column of the current positions and of the absolute times of the CURRENT timestamp fields"),
         ("TracklibVerif.Props.C17", "TV.C17.positions_and_stamps_unchanged", "for EVERY world (aligned or not, also on exceptions) and every feature operation / entry point: position and stamp of every observation object and the reference list of every track are unchanged"),
+        ("TracklibVerif.Props.C17", "TV.C17.class_distance", "which distance the features use per coordinate class: ENU -> sqrt(dE^2+dN^2); Geo -> norm2D of self.toENUCoords(point) (East/North in the local frame at `point`); ECEF -> refused by Obs.distance2DTo, AttributeError on position.distance2DTo"),
+        ("TracklibVerif.Props.C17", "TV.C17.enu_class_is_cinematics", "on ENU tracks the class-dispatching programs are computeAbsCurv / estimate_speed of the first model (no exception, third coordinate not read)"),
+        ("TracklibVerif.Props.C17", "TV.C17.abscurv_prefix_coords", "T1 for every class with a planimetric distance (ENU, Geo): s[0]=0, s[i+1]=s[i]+d_class(P[i+1],P[i]), abs_curv stored, ds removed; any scalar type (Float with libm included)"),
+        ("TracklibVerif.Props.C17", "TV.C17.speed_def_coords", "T2 for every class with a planimetric distance: fixes (1,0)/(n-1,n-2)/(i+1,i-1), NaN iff the elapsed time is zero, else d_class / elapsed"),
+        ("TracklibVerif.Props.C17", "TV.C17.pure_coords", "for every class, exceptions included: class and coordinates of the positions, timestamps and the other features are unchanged"),
+        ("TracklibVerif.Props.C17", "TV.C17.ecef_refused", "ECEF tracks of n>=2 fixes: computeAbsCurv refused, estimate_speed / computeCurvAbsBetweenTwoPoints AttributeError; a ds / speed column of zeros stays on the track"),
+        ("TracklibVerif.Props.C17", "TV.C17.abscurv_monotone_coords", "abs_curv never decreases for every class without exact arithmetic (0 <= sqrt x, a <= a+d for d >= 0), whatever the trigonometric functions return"),
+        ("TracklibVerif.Props.C17", "TV.C17.geo_distance_horizontal", "over the reals (sin^2+cos^2=1, genuine sqrt): GeoCoords.distance2DTo is the d >= 0 with d^2 + U^2 = |ECEF chord|^2 (horizontal part of the chord in the local frame at `point`), 0 for a repeated position"),
+        ("TracklibVerif.Props.C17", "TV.C17.length_table", "the VALUE of Track.length() on a lawful table: only reads, returns the 3D legs sqrt(dx^2+dy^2+dz^2) of P[k+1]-P[k] accumulated in Python's order (any scalar type)"),
+        ("TracklibVerif.Props.C17", "TV.C17.duration_table", "the VALUE of Track.duration() on a lawful table of >= 1 fixes: only reads, returns ts[n-1] - ts[0] of the current stamps"),
+        ("TracklibVerif.Props.C17", "TV.C17.sorted_table", "the VALUE of Track.isSorted() on a lawful table: true exactly when no consecutive time difference is <= 0 (strictly increasing; a repeated stamp gives False)"),
     ]
     partial = []
     open_statements = ["IEEE rounding of sqrt / + / division is outside the theorems (ordered-field statement; the recurrences abscurv_prefix / abscurv_table / speed_table hold for any scalar type, so also for the Float operations in Python's order); sampled by the transfer check with rel. tolerance 1e-9",
                        "the laws are proved for the specification table and for the world of shared observations; for C01's dict-and-rows table `St` of a single track they follow from C01's simulation theorems and are not restated here",
-                       "Track.length (3D), isSorted, duration are modelled (lengthT, isSortedT, durationT) and covered by positions_and_stamps_unchanged; their VALUES are checked by correspondence (and length by the oracle on tracks of constant height), not by a theorem"]
-    modelled = ("algo/analytics.py ds, speed; core/obs_coords.py ENUCoords.distance2DTo/distanceTo/__sub__/norm2D/norm; core/operators.py Integrator.execute, "
+                       "world histories (shared observations, in-place edits) are generated for ENUCoords only; Geo / ECEF tracks are single-track cases (Model/CinematicsCoords.lean is a list model, not yet an instance of the table laws)",
+                       "geo_distance_horizontal is over the reals: the rounding of the geodetic -> ECEF -> local-frame chain (sin, cos, atan2, pow, sqrt of libm) is outside the theorems; the oracle bounds it by 1e-6 m against its own geodesy (measured < 1e-8 m)",
+                       "GeoCoords.toENUCoords is modelled for STANDARD_PROJ == 1 (the module constant of this tree) only"]
+    modelled = ("algo/analytics.py ds, speed; core/obs.py Obs.distance2DTo with __check_call_geom1 (ECEF refused); core/obs_coords.py ENUCoords.distance2DTo/distanceTo/__sub__/norm2D/norm, "
+                "GeoCoords.distance2DTo = toENUCoords(point).norm2D() (toECEFCoords, ECEFCoords.toENUCoords / toGeoCoords of C14's Model/Geo.lean), ECEFCoords (no distance2DTo: AttributeError); "
+                "core/track.py addAnalyticalFeature's exception path (column created before the loop, values written so far kept); core/operators.py Integrator.execute, "
                 "Differentiator.execute; core/utils.py addListToAF; algo/cinematics.py computeAbsCurv, estimate_speed, computeCurvAbsBetweenTwoPoints; "
                 "core/track.py addAnalyticalFeature (IndexError -> NaN), createAnalyticalFeature (append + index len(dico)), removeAnalyticalFeature, "
                 "get/setObsAnalyticalFeature, getAnalyticalFeature, __setitem__(name, list), estimate_speed, getAbsCurv/getSpeed, length, isSorted, duration, getT, "
                 "__add__, extract, __getitem__(slice), copy (deep copy with memo); core/obs_time.py toAbsTime / __sub__ from the CURRENT fields (C03's ObsTimeG.toAbsG); "
                 "two models: Model/Cinematics.lean (a track = lists + name->column map) and Model/CinematicsTab.lean (the programs on the Track API of C01's "
-                "Model/Features.lean, instantiated at the specification table and at a WORLD of observation objects shared between tracks)")
-    trusted = ["math.sqrt / x**2 are taken as correctly rounded sqrt and x*x",
+                "Model/Features.lean, instantiated at the specification table and at a WORLD of observation objects shared between tracks); "
+                "Model/CinematicsCoords.lean: the same programs on a track of one coordinate class (ENU / Geo / ECEF), with the dispatch of distance2DTo and the exceptions")
+    trusted = ["math.sqrt / x**2 are taken as correctly rounded sqrt and x*x (ENU path); on the Geo path x ** 2 is libm's pow(x, 2.0) and sin / cos / atan2 / sqrt are libm's, the same functions Lean's Float calls",
+               "coords stream: which exception CLASS a refusal raises is not compared (obs.py raises CoordTypeError without importing the name, so a NameError surfaces); NameError and CoordTypeError both count as the refusal",
                "single-track stream (`run`): ObsTime.toAbsTime() values are computed by the harness as sec + ms/1000.0; world stream: the model computes them from the timestamp fields (C03's toAbsG)"]
     rule = ("exhaustive: all tracks of 2..4 (quick) / 2..5 (thorough) fixes whose legs are k*(3,4), k in {-1,0,1,2}, with dt in {0,1,2} s, op word 'asas'; "
             "all histories of 2 (quick) / 3 (thorough) operations over {computeAbsCurv, estimate_speed on a track and on a section sharing its observations, "
@@ -74,18 +95,23 @@ class P(Prop):
             "computeCurvAbsBetweenTwoPoints, getAbsCurv / getSpeed / track[name], removeAnalyticalFeature, track[name] = list, isSorted / duration / getT), in-place edits of "
             "positions (setX / setObsAnalyticalFeature / attribute) and of timestamp fields (sec, min, ms), directed templates (sum of a computed and a fresh segment, section then "
             "parent, compute-edit-remove-recompute, time evaluation then field edit then speed, all orders, deep copy) plus free random histories; the oracle keeps its own "
-            "bookkeeping and checks every fresh (or still valid) computation against the CURRENT positions and stamps. non-trivial = at least 2 fixes, one non-zero leg"
-            " (world: and at least one computation)")
+            "bookkeeping and checks every fresh (or still valid) computation against the CURRENT positions and stamps; "
+            "COORDINATE CLASSES (c17coords.py): directed walks (Paris, date line, equator, pole, climb) as GeoCoords and as ECEFCoords, then random tracks of 1..8 fixes, 60 % GeoCoords "
+            "(steps 0 / 1e-8 .. 1 degree along a parallel, a meridian or oblique, heights -400..9000 m with jumps, longitudes wrapping at +-180, latitudes up to the poles), 20 % ENUCoords, 20 % ECEFCoords, "
+            "op words over {computeAbsCurv, estimate_speed, computeCurvAbsBetweenTwoPoints, addAnalyticalFeature(ds), Obs.distance2DTo of consecutive fixes}, features present beforehand; the oracle recomputes "
+            "the planimetric distance of Geo fixes with its own geodesy (tangent frame at either fix accepted, 1e-6 m allowance) and checks positions, their CLASS and the stamps after every case, refused or not. "
+            "non-trivial = at least 2 fixes, one non-zero leg (world: and at least one computation; coords: a class that defines a planimetric distance)")
 
     def setup(self):
         from tracklib.core.obs import Obs
-        from tracklib.core.obs_coords import ENUCoords
+        from tracklib.core.obs_coords import ENUCoords, GeoCoords, ECEFCoords
         from tracklib.core.obs_time import ObsTime
         from tracklib.core.track import Track
         from tracklib.algo.cinematics import computeAbsCurv, estimate_speed, computeCurvAbsBetweenTwoPoints
         from tracklib.algo.analytics import ds, speed
         from tracklib.core.operators import Operator
         self.Obs, self.ENU, self.T, self.Track = Obs, ENUCoords, ObsTime, Track
+        self.COORDS = {"N": ENUCoords, "G": GeoCoords, "X": ECEFCoords}
         self.computeAbsCurv, self.estimate_speed = computeAbsCurv, estimate_speed
         self.curvAbsBetween, self.ds, self.speed, self.Operator = computeCurvAbsBetweenTwoPoints, ds, speed, Operator
 
@@ -124,6 +150,10 @@ class P(Prop):
             out += W.enum_world(3)
         for _ in range(nrand * 2):
             out.append(W.gen_world(rng))
+        # one track per coordinate class (c17coords.py): directed walks first, then random
+        out += C.enum_coords()
+        for _ in range(nrand):
+            out.append(C.gen_coords(rng, self.times))
         # single-fix tracks (outside the statement: correspondence only)
         for _ in range(20):
             out.append({"kind": "single", "mode": "q", "pos": [[rng.randrange(-5, 5), rng.randrange(-5, 5), 1]],
@@ -352,6 +382,8 @@ class P(Prop):
             yield self.lattice(rng)
         for _ in range(20):
             yield W.gen_world(rng)
+        for _ in range(10):
+            yield C.gen_coords(rng, self.times)
 
     def search_cases(self, rng):
         """failing-input search after a broken correspondence: three more draws of the quick generators (the thorough
@@ -363,25 +395,231 @@ class P(Prop):
 
     # ---------------------------------------------------------------- dispatch: single-track cases / world histories
     def impl(self, case):
-        return self.w_impl(case) if "hist" in case else self.impl1(case)
+        return self.w_impl(case) if "hist" in case else self.c_impl(case) if "cls" in case else self.impl1(case)
 
     def requests(self, case):
-        return self.w_requests(case) if "hist" in case else self.requests1(case)
+        return self.w_requests(case) if "hist" in case else self.c_requests(case) if "cls" in case else self.requests1(case)
 
     def decode(self, case, replies):
-        return self.w_decode(case, replies) if "hist" in case else self.decode1(case, replies)
+        return self.w_decode(case, replies) if "hist" in case else self.c_decode(case, replies) if "cls" in case else self.decode1(case, replies)
 
     def spec(self, case, out):
-        return self.w_spec(case, out) if "hist" in case else self.spec1(case, out)
+        return self.w_spec(case, out) if "hist" in case else self.c_spec(case, out) if "cls" in case else self.spec1(case, out)
 
     def shrink(self, case):
-        return self.w_shrink(case) if "hist" in case else self.shrink1(case)
+        return self.w_shrink(case) if "hist" in case else C.shrink_coords(case) if "cls" in case else self.shrink1(case)
 
     def describe(self, case):
-        return self.w_describe(case) if "hist" in case else self.describe1(case)
+        return self.w_describe(case) if "hist" in case else self.c_describe(case) if "cls" in case else self.describe1(case)
 
     def nontrivial(self, case):
-        return self.w_nontrivial(case) if "hist" in case else self.nontrivial1(case)
+        return self.w_nontrivial(case) if "hist" in case else self.c_nontrivial(case) if "cls" in case else self.nontrivial1(case)
+
+    # ================================================================ one track per coordinate class (c17coords.py)
+    def c_build(self, case):
+        cls = self.COORDS[case["cls"]]
+        tr = self.Track([], 1)
+        for p, tms in zip(case["pos"], case["tms"]):
+            t = self.T.readUnixTime(tms // 1000)
+            t.ms = tms % 1000
+            tr.addObs(self.Obs(cls(p[0], p[1], p[2]), t))
+        for name, col in case["feats"]:
+            tr.createAnalyticalFeature(name)
+            for i, v in enumerate(col):
+                tr.setObsAnalyticalFeature(name, i, NAN if v == "nan" else v)
+        return tr
+
+    def c_err(self, e):
+        """which exception CLASS a refusal raises is not part of the statement: `raise CoordTypeError(...)` in obs.py surfaces as
+        a NameError on this tree (the name is not imported there); both are the refusal of Obs.__check_call_geom1"""
+        nm = type(e).__name__
+        if nm in ("NameError", "CoordTypeError"):
+            return "err:refused"
+        if nm == "AttributeError":
+            return "err:attr"
+        return err_kind(e)
+
+    def c_impl(self, case):
+        tr = self.c_build(case)
+        n = tr.size()
+        rets = []
+        for op in case["ops"]:
+            try:
+                if op == "a":
+                    r = list(self.computeAbsCurv(tr))
+                elif op == "s":
+                    r = list(self.estimate_speed(tr))
+                elif op == "d":
+                    r = list(tr.addAnalyticalFeature(self.ds, "ds"))
+                elif op == "c":
+                    r = self.curvAbsBetween(tr)
+                elif op == "o":
+                    r = [tr[i].distance2DTo(tr[i + 1]) for i in range(n - 1)]
+                else:
+                    raise ValueError(op)
+            except BaseException as e:
+                if isinstance(e, KeyboardInterrupt):
+                    raise
+                r = self.c_err(e)
+            rets.append(r)
+        feats = [[nm, list(tr.getAnalyticalFeature(nm))] for nm in tr.getListAnalyticalFeatures()]
+        xyz, tms, classes = [], [], []
+        for i in range(tr.size()):
+            o = tr.getObs(i)
+            xyz.append([o.position.getX(), o.position.getY(), o.position.getZ()])
+            classes.append(type(o.position).__name__)
+            s = o.timestamp
+            tms.append(calendar.timegm((s.year, s.month, s.day, s.hour, s.min, s.sec)) * 1000 + s.ms)
+        return {"rets": rets, "feats": feats, "xyz": xyz, "classes": classes, "tms": tms, "n": tr.size()}
+
+    def c_requests(self, case):
+        enc = lambda v: "nan" if v == "nan" else fbits(v)
+        cols = [tok_list(enc(float(p[k])) for p in case["pos"]) for k in range(3)]
+        ts = tok_list(fbits((t // 1000) + (t % 1000) / 1000.0) for t in case["tms"])
+        feats = tok_list((nm + ":" + tok_list(enc(v) for v in col) for nm, col in case["feats"]), sep=";")
+        return ["C17.coords %s %s %s %s %s %s %s" % (case["cls"], cols[0], cols[1], cols[2], ts, feats, case["ops"])]
+
+    def c_decode(self, case, replies):
+        r = replies[0]
+        if r == "bad-request":
+            raise ValueError("bad-request")
+        rets_t, feats_t = r.split(" ")
+        rets = []
+        for c in untok(rets_t, "|"):
+            if c.startswith("err:"):
+                rets.append(c)
+            elif c == "none":
+                rets.append(None)
+            elif c[0] == "n":
+                rets.append(bitsf(c[1:]))
+            else:
+                rets.append([bitsf(w) for w in untok(c[1:])])
+        feats = []
+        for f in untok(feats_t, ";"):
+            nm, col = f.split(":")
+            feats.append([nm, [bitsf(w) for w in untok(col)]])
+        # the model has no operation that writes a position or a stamp (`CinCoords.pure_coords`): they are the inputs
+        return {"rets": rets, "feats": feats, "xyz": [[float(v) for v in p] for p in case["pos"]],
+                "classes": [self.COORDS[case["cls"]].__name__] * len(case["pos"]), "tms": list(case["tms"]), "n": len(case["pos"])}
+
+    def c_spec(self, case, out):
+        if "err" in out:
+            return "raised %s (%s)" % (out["err"], out.get("detail"))
+        pos, tms, n, cls = case["pos"], case["tms"], len(case["pos"]), case["cls"]
+        # computing the features leaves positions (values AND class of the coordinate objects) and timestamps unchanged,
+        # whatever the class and also when the computation is refused
+        if out["n"] != n or not close(out["xyz"], pos, 0.0, 0.0):
+            return "positions changed: %s -> %s" % (pos, out["xyz"])
+        if out["classes"] != [self.COORDS[cls].__name__] * n:
+            return "the class of the position objects changed: %s" % out["classes"]
+        if out["tms"] != tms:
+            return "timestamps changed: %s -> %s" % (tms, out["tms"])
+        given = {nm for nm, _ in case["feats"]}
+        after = dict((nm, col) for nm, col in out["feats"])
+        for nm, col in case["feats"]:
+            if nm in ("ds", "abs_curv", "speed"):
+                continue
+            want = [NAN if v == "nan" else v for v in col]
+            if nm not in after or not close(after[nm], want, 0.0, 0.0):
+                return "feature %s changed: %s -> %s" % (nm, want, after.get(nm))
+        if cls == "X" or n < 2:
+            return None         # ECEFCoords define no planimetric distance / a single fix: outside the statement
+        legs = [C.leg_range(cls, pos[i + 1], pos[i]) for i in range(n - 1)]
+        for j, (op, r) in enumerate(zip(case["ops"], out["rets"])):
+            if isinstance(r, str):
+                return "operation %d (%s) raised %s on a track of %s" % (j, op, r, self.COORDS[cls].__name__)
+            msg = None
+            if op == "a" and not (given & {"ds", "abs_curv"}):
+                msg = self.chk_abscurv_rng(r, legs)
+            elif op == "d":
+                msg = self.chk_ds_rng(r, legs)
+            elif op == "s" and "speed" not in given:
+                msg = self.chk_speed_rng(r, cls, pos, tms)
+            elif op == "c":
+                lo, hi, at = math.fsum(l[0] for l in legs), math.fsum(l[1] for l in legs), sum(l[2] for l in legs)
+                if isnan(r) or r < lo - at - 1e-9 * lo or r > hi + at + 1e-9 * hi:
+                    msg = "computeCurvAbsBetweenTwoPoints = %r, planimetric length is %r%s" % (r, lo, "" if lo == hi else " .. %r" % hi)
+            elif op == "o":
+                if not isinstance(r, list) or len(r) != n - 1:
+                    msg = "%s distances for %d legs" % (len(r) if isinstance(r, list) else r, n - 1)
+                else:
+                    for i, (lo, hi, at) in enumerate(legs):
+                        if isnan(r[i]) or r[i] < lo - at - 1e-9 * lo or r[i] > hi + at + 1e-9 * hi:
+                            msg = "Obs.distance2DTo(fix %d, fix %d) = %r, planimetric distance is %r" % (i, i + 1, r[i], lo)
+                            break
+            if msg:
+                return "operation %d (%s) on a track of %s: %s" % (j, op, self.COORDS[cls].__name__, msg)
+        # the feature is observed both ways: what the call returned is what track['abs_curv'] / track['speed'] reads
+        for op, nm in (("a", "abs_curv"), ("s", "speed")):
+            last = [r for o, r in zip(case["ops"], out["rets"]) if o == op]
+            if last and (nm not in after or not close(after[nm], last[-1], 0.0, 0.0)):
+                return "%s returned %s but track['%s'] reads %s" % ({"a": "computeAbsCurv", "s": "estimate_speed"}[op], last[-1], nm, after.get(nm))
+        return None
+
+    def chk_abscurv_rng(self, s, legs):
+        """the clauses of the statement about abs_curv, each leg known as a range (lo, hi, absolute allowance)"""
+        n = len(legs) + 1
+        if not isinstance(s, list) or len(s) != n:
+            return "abs_curv has %s values for %d fixes" % (len(s) if isinstance(s, list) else s, n)
+        if any(isnan(v) for v in s):
+            return "abs_curv contains NaN: %s" % s
+        if s[0] != 0:
+            return "abs_curv starts at %r, not 0" % (s[0],)
+        for i, (lo, hi, at) in enumerate(legs):
+            inc = s[i + 1] - s[i]
+            if inc < 0:
+                return "abs_curv decreases at fix %d: %r -> %r" % (i + 1, s[i], s[i + 1])
+            tol = 1e-9 * max(hi, abs(s[i + 1])) + at
+            if inc < lo - tol or inc > hi + tol:
+                return "abs_curv grows by %r between fixes %d and %d, planimetric distance is %r" % (inc, i, i + 1, lo)
+        lo, hi, at = math.fsum(l[0] for l in legs), math.fsum(l[1] for l in legs), sum(l[2] for l in legs)
+        if s[n - 1] < lo - at - 1e-9 * lo or s[n - 1] > hi + at + 1e-9 * hi:
+            return "abs_curv ends at %r, planimetric length is %r" % (s[n - 1], lo)
+        return None
+
+    def chk_ds_rng(self, d, legs):
+        n = len(legs) + 1
+        if not isinstance(d, list) or len(d) != n:
+            return "ds has %s values for %d fixes" % (len(d) if isinstance(d, list) else d, n)
+        if d[0] != 0:
+            return "ds[0] = %r, not 0" % (d[0],)
+        for i, (lo, hi, at) in enumerate(legs):
+            if isnan(d[i + 1]) or d[i + 1] < lo - at - 1e-9 * lo or d[i + 1] > hi + at + 1e-9 * hi:
+                return "ds[%d] = %r, planimetric distance to the previous fix is %r" % (i + 1, d[i + 1], lo)
+        return None
+
+    def chk_speed_rng(self, v, cls, pos, tms):
+        n = len(pos)
+        if not isinstance(v, list) or len(v) != n:
+            return "speed has %s values for %d fixes" % (len(v) if isinstance(v, list) else v, n)
+        if any(tms[i] > tms[i + 1] for i in range(n - 1)):
+            return None
+        tmax = max(abs(t) for t in tms) / 1000.0
+        for i in range(n):
+            a, b = (1, 0) if i == 0 else (n - 1, n - 2) if i == n - 1 else (i + 1, i - 1)
+            el = Fraction(tms[a] - tms[b], 1000)
+            if el == 0:
+                if not isnan(v[i]):
+                    return "speed[%d] = %r although no time elapsed between fixes %d and %d (NaN expected)" % (i, v[i], b, a)
+                continue
+            lo, hi, at = C.leg_range(cls, pos[a], pos[b])
+            rel = 1e-9 + (4 * ulp(tmax) / float(el) if any(t % 1000 for t in tms) else 0.0)
+            wlo, whi = lo / float(el), hi / float(el)
+            if isnan(v[i]) or v[i] < wlo - rel * wlo - at / float(el) or v[i] > whi + rel * whi + at / float(el):
+                return ("speed[%d] = %r, expected distance(fix %d, fix %d) / elapsed = %r / %s = %r"
+                        % (i, v[i], b, a, lo, float(el), wlo))
+        return None
+
+    def c_describe(self, case):
+        n = len(case["pos"])
+        t = case["tms"]
+        return {"kind": case["kind"], "n": n, "ops": "".join(sorted(set(case["ops"]))), "pre": bool(case["feats"]),
+                "repeated_pos": any(case["pos"][i] == case["pos"][i + 1] for i in range(n - 1)),
+                "repeated_time": any(t[i] == t[i + 1] for i in range(n - 1))}
+
+    def c_nontrivial(self, case):
+        p = case["pos"]
+        return case["cls"] != "X" and len(p) >= 2 and any(p[i][:2] != p[i + 1][:2] for i in range(len(p) - 1))
 
     # ================================================================ world histories (c17world.py)
     # ---------------------------------------------------------------- implementation
